@@ -55,4 +55,4 @@ def main(ctx):
            "explanation": "TLC enumerates (valid prefix length) x (every single-byte substitution in the header region of packet i, for every packet i | every proper prefix (truncation at every byte) of packet i | 30 crafted FDT instances with missing / zero / huge / non-numeric / inconsistent attributes or malformed XML, each followed by the object packets | seeded mutation sequences: bit flips, header-field edits, truncation, extension, splicing | garbage | packets with an EXT_FTI on the limits of the field widths and of the FEC schemes, built with Wire.tla's encoder: scheme x B x E x transfer length class x scheme-specific values x (SBN, ESI) class) over real sessions of all schemes and signalling modes; plus every byte string of length <= 2 (thorough: <= 3) and seeded longer ones.  The mass cases are pushed into ONE real receiver and logged aggregated (count, ok, err, panic, slowest call, peak heap per call; offenders itemised); afterwards a valid session with fresh TOIs on the same endpoint and TSI must be delivered exactly (C01 predicate).  Hangs are caught by a watchdog (3 s per call)"}
     return finish(ctx, "fault_enumeration", dict(cov, evaluations=max(1, ctx.events), distinct_nontrivial=max(2, len(behs)),
                   rule="one evaluation = one trace event judged by the monitor (a batch event aggregates up to 10^5 pushed datagrams); distinct = adversarial behaviours (prefix, operation, session) replayed"),
-                  ["heap is measured by a counting global allocator in the harness process", "time limits: 1 s per datagram (monitor), 3 s watchdog"])
+                  ["heap is measured by a counting global allocator in the harness process", "time limits: 2 s per datagram (monitor), 3 s watchdog (wall clock)"])
